@@ -356,7 +356,7 @@ Qed.
 Definition same_except_queue (s s' : rstate) : Prop :=
   r_epoch s' = r_epoch s /\ r_cur s' = r_cur s /\ r_old s' = r_old s /\ r_wins s' = r_wins s /\
   r_high s' = r_high s /\ r_cid s' = r_cid s /\ r_cidneg s' = r_cidneg s /\ r_rrc s' = r_rrc s /\
-  r_closed s' = r_closed s.
+  r_closed s' = r_closed s /\ r_estab s' = r_estab s.
 
 Lemma seq_refl s : same_except_queue s s.
 Proof. unfold same_except_queue. auto 10. Qed.
@@ -467,7 +467,7 @@ Section Recv.
   (* a datagram, or the parked queue, of which no record authenticates *)
   Lemma auth_cipher_ext s s' b : same_except_queue s s' -> auth_cipher s' b = auth_cipher s b.
   Proof.
-    intros (H1 & H2 & H3 & H4 & H5 & H6 & H7 & H8 & H9).
+    intros (H1 & H2 & H3 & H4 & H5 & H6 & H7 & H8 & H9 & H10).
     unfold auth_cipher, Rec13.parse_crec, cid_policy, Rec13.open_record, read_candidates.
     rewrite H2, H3, H6, H7.
     destruct (let '(expected, allowed) := _ in _) as [[h ct]|]; [|reflexivity].
@@ -560,7 +560,8 @@ Section Recv.
     intros Hl Hc Hp. unfold Rec13.dispatch.
     assert (Hm : wtrans W s [(e, q)] (mark W prot s e q)) by now apply wt_mark.
     destruct (t =? 22).
-    { destruct (hs_ok hs_room body); cbn [fst snd marks]; [exact Hm|apply wt_refl]. }
+    { destruct (r_estab s && (e =? 0)); [apply wt_refl|].
+      destruct (hs_ok hs_room body); cbn [fst snd marks]; [exact Hm|apply wt_refl]. }
     destruct (decode_content t body) as [p | level desc | | | ].
     - destruct (e =? 0); cbn [fst snd marks]; [apply wt_refl|exact Hm].
     - destruct ((level =? 2) || (desc =? 0)); destruct (desc =? 0); cbn [fst snd marks app];
@@ -623,9 +624,10 @@ Section Recv.
 
   Lemma step_wtrans W s o : wtrans W s (marks (snd (step W s o))) (fst (step W s o)).
   Proof.
-    destruct o as [d | e | e | cid neg rrc | ]; cbn [Rec13.step].
+    destruct o as [d | e | e | | cid neg rrc | ]; cbn [Rec13.step].
     - unfold Rec13.recv13. destruct (r_closed s); [apply wt_refl|].
       destruct (unpack_datagram13 s d) as [rs|]; [apply recv_list_wtrans|apply wt_refl].
+    - cbn [fst snd marks]. now apply wt_other.
     - cbn [fst snd marks]. now apply wt_other.
     - cbn [fst snd marks]. now apply wt_other.
     - cbn [fst snd marks]. now apply wt_other.
@@ -801,7 +803,8 @@ Section Recv.
   Proof.
     clear snmask aopen.
     unfold Rec13.dispatch. destruct (t =? 22) eqn:E22.
-    { assert (t =? 23 = false) by lia. rewrite H. destruct (hs_ok hs_room body); reflexivity. }
+    { assert (t =? 23 = false) by lia. rewrite H. destruct (r_estab s && (e =? 0)); [reflexivity|].
+      destruct (hs_ok hs_room body); reflexivity. }
     destruct (decode_content t body) as [p | level desc | | | ] eqn:Ed.
     - apply decode_app in Ed. destruct Ed as [-> ->]. cbn [N.eqb Pos.eqb andb].
       destruct (e =? 0); reflexivity.
@@ -824,7 +827,8 @@ Section Recv.
     In (e', q') (marks (snd (dispatch W prot s e q t body))) -> e' = e /\ q' = q.
   Proof.
     unfold Rec13.dispatch. destruct (t =? 22).
-    { destruct (hs_ok hs_room body); cbn; [intros [H | []]; now inversion H | intros []]. }
+    { destruct (r_estab s && (e =? 0)); [intros []|].
+      destruct (hs_ok hs_room body); cbn; [intros [H | []]; now inversion H | intros []]. }
     destruct (decode_content t body) as [p | level desc | | | ].
     - destruct (e =? 0); cbn; [intros [] | intros [H | []]; now inversion H].
     - destruct ((level =? 2) || (desc =? 0)); destruct (desc =? 0); cbn; intros [H | []]; now inversion H.
@@ -1011,10 +1015,11 @@ Section Recv.
     cbn [Rec13.run_ops] in H. destruct (step W s op) as [s1 o1] eqn:E1.
     destruct (run_ops W s1 ops) as [s2 o2] eqn:E2. cbn [snd] in H. apply in_app_iff in H.
     destruct H as [H | H]; [|apply (IH s1); now rewrite E2].
-    destruct op as [d | e | e | cid neg rrc | ]; cbn [Rec13.step] in E1.
+    destruct op as [d | e | e | | cid neg rrc | ]; cbn [Rec13.step] in E1.
     - unfold Rec13.recv13 in E1. destruct (r_closed s); [inversion E1; subst; destruct H|].
       destruct (unpack_datagram13 s d) as [rs|]; [|inversion E1; subst; destruct H].
       exists true. apply (recv_list_origin W true o rs s). now rewrite E1.
+    - inversion E1; subst; destruct H.
     - inversion E1; subst; destruct H.
     - inversion E1; subst; destruct H.
     - inversion E1; subst; destruct H.
@@ -1076,7 +1081,7 @@ Section Recv.
     induction ops as [|o ops IH]; intro s; [exact I|].
     cbn [Rec13.run_ops].
     assert (H1 : sublist (RecvSound.recnums (deliveries (snd (step W s o)))) (marks (snd (step W s o)))).
-    { destruct o as [d | e | e | cid neg rrc | ]; cbn [Rec13.step]; try exact I.
+    { destruct o as [d | e | e | | cid neg rrc | ]; cbn [Rec13.step]; try exact I.
       - unfold Rec13.recv13. destruct (r_closed s); [exact I|].
         destruct (unpack_datagram13 s d); [apply recv_list_deliver_marks|exact I].
       - destruct (r_closed s); [exact I|apply recv_list_deliver_marks]. }
@@ -1105,7 +1110,8 @@ Section Recv.
       destruct (accept mx w q) as [w' isl]. destruct (prot && isl); reflexivity. }
     assert (Hdisp : forall prot s0 e q t body, r_queue (fst (dispatch W prot s0 e q t body)) = r_queue s0).
     { intros prot s0 e q t body. unfold Rec13.dispatch. destruct (t =? 22).
-      - destruct (hs_ok hs_room body); cbn [fst]; [apply Hmark|reflexivity].
+      - destruct (r_estab s0 && (e =? 0)); [reflexivity|].
+        destruct (hs_ok hs_room body); cbn [fst]; [apply Hmark|reflexivity].
       - destruct (decode_content t body) as [p | level desc | | | ].
         + destruct (e =? 0); cbn [fst]; [reflexivity|apply Hmark].
         + destruct ((level =? 2) || (desc =? 0)); cbn [fst with_closed r_queue]; apply Hmark.
@@ -1150,7 +1156,7 @@ Section Recv.
     { clear ops. induction ops as [|o ops IH]; intros s Hs; [exact Hs|].
       cbn [Rec13.run_ops].
       assert (H1 : (length (r_queue (fst (step W s o))) <= max_queue)%nat).
-      { destruct o as [d | e | e | cid' neg' rrc' | ]; cbn [Rec13.step]; try exact Hs.
+      { destruct o as [d | e | e | | cid' neg' rrc' | ]; cbn [Rec13.step]; try exact Hs.
         - unfold Rec13.recv13. destruct (r_closed s); [exact Hs|].
           destruct (unpack_datagram13 s d); [now apply recv_list_queue|exact Hs].
         - destruct (r_closed s); [exact Hs|]. apply recv_list_queue. cbn. lia. }
@@ -1178,7 +1184,7 @@ Section Recv.
   (* receiving never touches the key state, the remote epoch or the negotiated extensions *)
   Definition keys_same (s s' : rstate) : Prop :=
     r_epoch s' = r_epoch s /\ r_cur s' = r_cur s /\ r_old s' = r_old s /\
-    r_cid s' = r_cid s /\ r_cidneg s' = r_cidneg s /\ r_rrc s' = r_rrc s.
+    r_cid s' = r_cid s /\ r_cidneg s' = r_cidneg s /\ r_rrc s' = r_rrc s /\ r_estab s' = r_estab s.
 
   Lemma keys_same_refl s : keys_same s s.
   Proof. unfold keys_same; auto 10. Qed.
@@ -1193,12 +1199,13 @@ Section Recv.
   Qed.
 
   Lemma keys_same_enqueue lease s b : keys_same s (enqueue lease s b).
-  Proof. destruct (enqueue_spec lease s b) as [(H1 & H2 & H3 & H4 & H5 & H6 & H7 & H8 & H9) _]. unfold keys_same. auto 10. Qed.
+  Proof. destruct (enqueue_spec lease s b) as [(H1 & H2 & H3 & H4 & H5 & H6 & H7 & H8 & H9 & H10) _]. unfold keys_same. auto 10. Qed.
 
   Lemma keys_same_dispatch W prot s e q t body : keys_same s (fst (dispatch W prot s e q t body)).
   Proof.
     unfold Rec13.dispatch. destruct (t =? 22).
-    - destruct (hs_ok hs_room body); cbn [fst]; [apply keys_same_mark|apply keys_same_refl].
+    - destruct (r_estab s && (e =? 0)); [apply keys_same_refl|].
+      destruct (hs_ok hs_room body); cbn [fst]; [apply keys_same_mark|apply keys_same_refl].
     - destruct (decode_content t body) as [p | level desc | | | ].
       + destruct (e =? 0); cbn [fst]; [apply keys_same_refl|apply keys_same_mark].
       + destruct ((level =? 2) || (desc =? 0)); cbn [fst]; [|apply keys_same_mark].
@@ -1251,11 +1258,12 @@ Section Recv.
     induction ops as [|o ops IH]; intros s e H; [exact H|].
     cbn [Rec13.run_ops].
     assert (H1 : has_gen (fst (step W s o)) e = true).
-    { destruct o as [d | e' | e' | cid neg rrc | ]; cbn [Rec13.step fst].
+    { destruct o as [d | e' | e' | | cid neg rrc | ]; cbn [Rec13.step fst].
       - unfold Rec13.recv13. destruct (r_closed s); [exact H|].
         destruct (unpack_datagram13 s d) as [rs|]; [|exact H].
         destruct (recv_list_keys W true rs s) as (_ & Hc & Ho & _). unfold has_gen in *. now rewrite Hc, Ho.
       - now apply has_gen_install.
+      - exact H.
       - exact H.
       - exact H.
       - destruct (r_closed s); [exact H|].
@@ -1294,7 +1302,8 @@ Section Recv.
     In (OAck e' q' body') (snd (dispatch W prot s e q t body)) -> e' = e /\ q' = q /\ body' = body /\ e <> 0.
   Proof.
     unfold Rec13.dispatch. destruct (t =? 22).
-    { destruct (hs_ok hs_room body); cbn; [intros [H | [H | []]]; discriminate | intros []]. }
+    { destruct (r_estab s && (e =? 0)); [intros []|].
+      destruct (hs_ok hs_room body); cbn; [intros [H | [H | []]]; discriminate | intros []]. }
     destruct (decode_content t body) as [p | level desc | | | ].
     - destruct (e =? 0); cbn; [intros [H | [H | []]]; discriminate | intros [H | [H | []]]; discriminate].
     - destruct ((level =? 2) || (desc =? 0)); destruct (desc =? 0); cbn;
@@ -1303,6 +1312,52 @@ Section Recv.
       intros [H | [H | []]]; [discriminate|]. inversion H; subst. repeat split; auto. lia.
     - destruct ((e =? 0) || negb (r_rrc s)); cbn; intros H; repeat (destruct H as [H | H]; [discriminate|]); destruct H.
     - destruct (e =? 0); cbn; [intros [] | intros [H | [H | []]]; discriminate].
+  Qed.
+
+  Lemma dispatch_hs W prot s e q t body e' q' body' :
+    In (OHs e' q' body') (snd (dispatch W prot s e q t body)) ->
+    e' = e /\ q' = q /\ body' = body /\ t = 22 /\ (r_estab s = true -> e <> 0).
+  Proof.
+    unfold Rec13.dispatch. destruct (t =? 22) eqn:E22.
+    { destruct (r_estab s && (e =? 0)) eqn:Ee; [intros []|].
+      destruct (hs_ok hs_room body); cbn; [|intros []].
+      intros [H | [H | []]]; [discriminate|]. inversion H; subst.
+      split; [reflexivity|]. split; [reflexivity|]. split; [reflexivity|]. split; [lia|].
+      intros Hes. rewrite Hes in Ee. cbn in Ee. lia. }
+    destruct (decode_content t body) as [p | level desc | | | ].
+    - destruct (e =? 0); cbn; intros H; repeat (destruct H as [H | H]; [discriminate|]); destruct H.
+    - destruct ((level =? 2) || (desc =? 0)); destruct (desc =? 0); cbn;
+        intros H; repeat (destruct H as [H | H]; [discriminate|]); destruct H.
+    - destruct (e =? 0); cbn; intros H; repeat (destruct H as [H | H]; [discriminate|]); destruct H.
+    - destruct ((e =? 0) || negb (r_rrc s)); cbn; intros H; repeat (destruct H as [H | H]; [discriminate|]); destruct H.
+    - destruct (e =? 0); cbn; intros H; repeat (destruct H as [H | H]; [discriminate|]); destruct H.
+  Qed.
+
+  (* once the handshake is complete only authentic handshake records of a protected epoch (KeyUpdate,
+     NewSessionTicket, retransmitted final flights) reach the handshake layer; unprotected ones are
+     discarded *)
+  Theorem hs_only_authentic_established W lease s b e q body :
+    r_estab s = true ->
+    In (OHs e q body) (snd (recv_record W lease s b)) ->
+    e <> 0 /\ auth_cipher s b = Some (body, 22, q, e).
+  Proof.
+    intro Hes. unfold Rec13.recv_record. destruct b as [|c b']; [intros []|].
+    destruct (is_ct13 c).
+    - unfold auth_cipher, Rec13.recv_cipher.
+      destruct (parse_crec s (c :: b')) as [[h ct]|]; [|intros []].
+      destruct (negb (has_prot s)); [intros []|].
+      destruct (open_record s h ct) as [body' t q' e' | | ]; [|intros []|intros []].
+      destruct (get_win W e' _) as [mx w]. destruct (negb (check mx w q')); [intros []|].
+      destruct (maxseq48 <? q'); [intros []|].
+      intro H. apply dispatch_hs in H. destruct H as (-> & -> & -> & -> & He). split; [now apply He|reflexivity].
+    - unfold Rec13.recv_legacy.
+      destruct (length (c :: b') <? 13)%nat; [intros []|].
+      destruct (negb (legacy_version_ok (c :: b'))); [intros []|].
+      destruct (r_epoch s <? _); [intros []|].
+      destruct (get_win W _ _) as [mx w]. destruct (negb (check mx w _)); [intros []|].
+      destruct (_ =? 0) eqn:E0.
+      + intro H. apply dispatch_hs in H. destruct H as (-> & _ & _ & _ & He). exfalso. apply He; [exact Hes|lia].
+      + destruct (negb (has_prot _)); intros [].
   Qed.
 
   (* only authentic ACK records of a protected epoch reach the handshake layer (unprotected ACKs are
@@ -1322,7 +1377,8 @@ Section Recv.
       intro H. pose proof H as H0. apply dispatch_acks in H. destruct H as (-> & -> & -> & He). split; [exact He|].
       (* the inner type is 26 *)
       unfold Rec13.dispatch in H0. destruct (t =? 22) eqn:E22.
-      { destruct (hs_ok hs_room body'); cbn in H0; repeat (destruct H0 as [H0 | H0]; [discriminate|]); destruct H0. }
+      { destruct (r_estab _ && (e' =? 0)); [destruct H0|].
+        destruct (hs_ok hs_room body'); cbn in H0; repeat (destruct H0 as [H0 | H0]; [discriminate|]); destruct H0. }
       unfold decode_content in H0.
       destruct (t =? 21) eqn:E21.
       { destruct body' as [|l [|d [|x y]]]; cbn in H0; try (destruct (e' =? 0); cbn in H0);
@@ -1484,7 +1540,7 @@ End Ideal.
 
 
 (* an established DTLS 1.3 receiver: application keys (epoch 3) current, handshake keys (epoch 2) retained *)
-Definition est_state : rstate := mk_rstate 3 (Some 3) [2] [] [] [] [] false false false.
+Definition est_state : rstate := mk_rstate 3 (Some 3) [2] [] [] [] [] false false false true.
 (* alert(21) {254,253} epoch 0, record number 4138, length 2: fatal(2) internal_error(80) *)
 Definition plain_alert : bytes := [21; 254; 253; 0; 0; 0; 0; 0; 0; 16; 42; 0; 2; 2; 80].
 (* handshake(22) epoch 0 number 4263: KeyUpdate(24) length 1 message_seq 7 fragment 0..1, update_not_requested *)
@@ -1514,11 +1570,20 @@ Proof.
   vm_compute in H. discriminate H.
 Qed.
 
-(* an unprotected handshake record is still pushed to the reassembly buffer and wakes the handshake
-   layer (which, for a KeyUpdate carrying the expected message_seq, answers with a fatal alert) *)
-Theorem unprotected_handshake_accepted :
-  forall snmask aopen, 
-    snd (recv13 snmask aopen (fun _ => true) 64 est_state plain_keyupdate) =
+(* once the handshake is complete an unprotected handshake record (here a KeyUpdate carrying
+   message_seq 7) is dropped before reassembly: no commit, nothing reaches the post-handshake state
+   machine (regression of the repaired defect: it used to be answered with a fatal alert) *)
+Theorem unprotected_handshake_inert_example :
+  forall snmask aopen hs_room,
+    snd (recv13 snmask aopen hs_room 64 est_state plain_keyupdate) = [] /\
+    r_high (fst (recv13 snmask aopen hs_room 64 est_state plain_keyupdate)) = r_high est_state /\
+    latest (snd (get_win 64 0 (r_wins (fst (recv13 snmask aopen hs_room 64 est_state plain_keyupdate))))) = 0.
+Proof. intros. split; [|split]; vm_compute; reflexivity. Qed.
+
+(* ... while the handshake is still running unprotected handshake records are what the handshake is made of *)
+Theorem unprotected_handshake_during_handshake :
+  forall snmask aopen,
+    snd (recv13 snmask aopen (fun _ => true) 64 (rinit [] false false) plain_keyupdate) =
     [OMark 0 4263; OHs 0 4263 [24; 0; 0; 1; 0; 7; 0; 0; 0; 0; 0; 1; 0]].
 Proof. intros. vm_compute. reflexivity. Qed.
 
@@ -1547,7 +1612,7 @@ Definition tol_state : rstate :=
   mk_rstate 3 (Some 3) [2]
     [(maxseq48, win_init 256); (maxseq64, win_init 256); (maxseq64, win_init 256);
      (maxseq64, {| latest := 200; mask := true :: repeat false 255 |})]
-    [0; 0; 0; 200] [] [] false false false.
+    [0; 0; 0; 200] [] [] false false false true.
 Definition tol_record : bytes := [39; 5; 0; 16] ++ repeat 0 16.
 Definition tol_open (e q : N) (a c : bytes) : option bytes :=
   if (e =? 3) && (q =? 5) then Some [104; 105; 23] else None.
